@@ -142,11 +142,17 @@ def cases(tier, seed):
     for i in range(n_mf):
         for j, kind in enumerate(DILL_KINDS):
             out.append({"engine": "dill", "kind": kind, "seed": base + 11 + (i * len(DILL_KINDS) + j) * 13})
+    # synchronous Hyperband with trial failures: restore points between a failure and the completion of its rung
+    for i in range(14 if quick else 300):
+        out.append({"engine": "dill", "kind": "sync_hb", "seed": base + 800011 + i * 41, "sync_failures": True})
     # one full Tuner.save / Tuner.load round trip (tuner.py: dill.dump of the Tuner holding the scheduler and a
     # LocalBackend; the tuner is never run, the scheduler is driven by the virtual tuner) per scheduler kind
     for j, kind in enumerate(DILL_KINDS + GP_DILL_KINDS):
         for i in range(1 if quick else 8):
-            out.append({"engine": "dill", "kind": kind, "via": "tuner", "seed": base + 900001 + (i * 20 + j) * 37})
+            sp = {"engine": "dill", "kind": kind, "via": "tuner", "seed": base + 900001 + (i * 20 + j) * 37}
+            if kind == "sync_hb":
+                sp["sync_failures"] = True
+            out.append(sp)
     n_cl = 40 if quick else 900
     for i in range(n_cl):
         # option combinations are enumerated, not drawn, so that every variant is explored in every run
@@ -167,6 +173,9 @@ def floors(tier):
             f[f"rp_paused:dill:{kind}"] = 20 * k
     for kind in DILL_KINDS + GP_DILL_KINDS:
         f[f"rp:tuner:{kind}"] = 1 if tier == "quick" else 20
+    f["rp_after_failure:dill:sync_hb"] = 100 * k
+    for kind in ("fifo_random", "hb_stopping", "hb_promotion", "hb_pasha", "hb_cost_promotion", "pbt", "median"):
+        f[f"rp_after_failure:dill:{kind}"] = 10 * k
     for kind in CLONE_KINDS:
         f[f"rp:clone:{kind}"] = 100 * k
         f[f"rp_k0:clone:{kind}"] = 5 * k
@@ -279,7 +288,7 @@ def expand(spec):
     p["max_events"] = rng.randint(6, 70)
     p["checkpointing"] = rng.random() < 0.6
     p["use_mra"] = False
-    p["fail_rate"] = rng.choice([0.0, 0.0, 0.15])
+    p["fail_rate"] = rng.choice([0.0, 0.15, 0.3])
     p["points"] = rng.choice(["default", "default", "none", "explicit"])
     p["max_t"] = rng.randint(1, 4)
     host = None
@@ -354,9 +363,20 @@ def expand(spec):
                 sz = sorted(rng.sample(range(1, 7), len(lv)), reverse=True)
                 systems.append([[s, l] for s, l in zip(sz, lv)])
             p["bracket_rungs"] = systems
+            # failures in rungs that are not yet complete (the failed slot holds NaN until the rung is promoted from):
+            # most synchronous histories have them; snapshots are also taken right after every failure
+            p["fail_rate"] = rng.choice([0.0, 0.2, 0.3, 0.4])
+            if spec.get("sync_failures"):
+                p["fail_rate"] = rng.choice([0.2, 0.3, 0.4])
+            p["sync_style"] = rng.choice(["custom", "custom", "geometric"])
+            if p["sync_style"] == "geometric":
+                # integer reduction factors with max level a power of it (C05-K1: rounded level == max level asserts)
+                p["grace_period"] = 1
+                p["reduction_factor"], levels = rng.choice([(2, [1, 2, 4]), (2, [1, 2, 4, 8]), (3, [1, 3, 9]), (3, [1, 3])])
+                p["brackets"] = rng.choice([None, 1, 2])
         p["max_t"] = levels[-1]
         p["use_mra"] = rng.random() < 0.5
-        p["n_workers"] = rng.randint(1, 5)
+        p["n_workers"] = rng.randint(2, 5) if spec.get("sync_failures") else rng.randint(1, 5)
         p["max_trials"] = 10**6
     if kind == "pbt":
         p["max_t"] = rng.randint(3, 9)
@@ -556,7 +576,11 @@ def build(p, seed):
             kw["max_resource_attr"] = "epochs"
         else:
             kw["max_resource_level"] = p["max_t"]
-        if kind == "sync_hb":
+        if kind == "sync_hb" and p.get("sync_style") == "geometric":
+            sched = sy.SynchronousGeometricHyperbandScheduler(
+                space, grace_period=p["grace_period"], reduction_factor=p["reduction_factor"], brackets=p["brackets"],
+                points_to_evaluate=pts, **kw)
+        elif kind == "sync_hb":
             sched = sy.SynchronousHyperbandScheduler(
                 space, bracket_rungs=[[tuple(x) for x in b] for b in p["bracket_rungs"]], points_to_evaluate=pts, **kw)
         else:
@@ -801,11 +825,13 @@ def _drive(p, seed, order, snapshot_fn=None, sample=None, all_points=True, wrap=
     while vt.n_events < max_events:
         if snapshot_fn is not None:
             n_paused = sum(1 for t in vt.trials.values() if t.status == "paused")
-            take = all_points or step in sample or (n_paused and not first_paused_done)
+            after_error = bool(vt.events) and vt.events[-1][0] == "error"
+            take = all_points or step in sample or (n_paused and not first_paused_done) or after_error
             if take:
                 if n_paused:
                     first_paused_done = True
-                s = {"k": step, "idx": len(port.log), "paused": n_paused, "running": len(vt.running),
+                s = {"k": step, "idx": len(port.log), "paused": n_paused, "running": len(vt.running), "after_error": after_error,
+                     "failed": sum(1 for t in vt.trials.values() if t.status == "failed"),
                      "nprs": np.random.get_state(), "ctx_idx": None if ctx is None else len(ctx.log)}
                 if p["kind"] == "hb_pasha":
                     s["probe"] = _set_order_probe(sched)
@@ -997,6 +1023,8 @@ def _judge_restore_point(o, p, fac, kind, log1, s, restore_fn, np, replay_fn=Non
         o.count(f"rp_paused:{fac}")
     if s["running"]:
         o.count(f"rp_pending:{fac}")
+    if s.get("failed"):
+        o.count(f"rp_after_failure:{fac}")
     if bad is not None:
         j, got, exp = bad
         what = _classify(log1, j, got, exp)
